@@ -33,6 +33,9 @@ fn rfiles(tier: Tier, seed: u64) -> Vec<RFile> {
     for (name, bytes) in crate::refmp4::kitchen::fault_files(tier) {
         v.push(RFile { name, bytes, init: None, pairs: false });
     }
+    let (i5, s5) = crate::refmp4::kitchen::k5();
+    v.push(RFile { name: "K5:segment against init".into(), bytes: s5, init: Some(i5), pairs: false });
+    v.push(RFile { name: "K6:trun shapes".into(), bytes: crate::refmp4::kitchen::k6(), init: None, pairs: false });
     v
 }
 
